@@ -13,7 +13,6 @@ Boolean function that is only meaningful once its own fuel is large enough.  The
 evaluator's verdict for every fuel `f' ≥ f`.**
 -/
 import AstGrepVerif.Lemmas.RuleRef
-import AstGrepVerif.Lemmas.RuleRefCached
 import AstGrepVerif.Lemmas.RuleRefVars
 
 set_option linter.unusedSimpArgs false
@@ -29,8 +28,8 @@ open AGV Spec
 * `r.varFree`, `CtxVarFree ctx`: the rule and every utility rule it can reach capture no
   meta-variable (`$_`, `$$$` and literal code only: environments never matter); `all`/`any`
   carry no kind cache and global utilities neither a kind cache nor constraints (the reference
-  ignores all three); an `ofRule` is a rule form that returns the sibling itself
-  (`nthChild_ofRule_relation_counterexample`);
+  ignores all three: `kind_cache_counterexample`, `global_constraints_counterexample`; for
+  sound caches see `Props/C05Cached.lean`);
 * `UniqueIds`, `NoZeroWidth`: node ids identify nodes; siblings have non-empty ordered ranges
   (then the cursor walks of `next_all`/`prev_all` are the positional sibling lists);
 * `SmallFanout`: fewer than `2^31 - 1` children per node (`(index + 1) as i32` is exact);
@@ -172,36 +171,6 @@ theorem pattern_fresh_env (s : Strictness) (src : Bytes) (f : Nat) (p : PNode) (
       = (matchPatternEnv s src f p c Env.empty).map (Option.map (envAppend env)) :=
   matchPatternEnv_fresh s src (· ∈ p.vars) f p c env (PNode.namesIn_vars p) hfresh
 
-/-! ## Rules that carry kind caches
-
-Real rules carry the kind caches computed by `All::new` / `Any::new` / `RuleCore::new`; the
-reference semantics never looks at them (`sat_ignores_caches`) and sound caches are transparent
-for the evaluator (C01, `matchRule_transparent`).  `stripR` / `stripCtx` remove every cache. -/
-
-/-- the reference semantics ignores the kind caches -/
-theorem sat_ignores_caches (ctx : RCtx) (F : Nat) (r : Rule) (n : Tree) :
-    sat ctx F r n = sat (stripCtx ctx) F (stripR r) n :=
-  sat_strip ctx F r n
-
-/-- **with sound caches**: whenever the cache-free evaluation ends normally, the evaluation with
-the caches gives the same outcome (C01) and its verdict is the reference verdict.  `RegOK`,
-`CachesOK`: every cache in the rule and in the registries is sound (C01 shows `All::new`,
-`Any::new`, `RuleCore::new` produce such caches); the fragment conditions are those of
-`rule_ref_equiv_vars`, asked of the rule and registries with the caches removed. -/
-theorem rule_ref_equiv_cached (ctx : RCtx) (hreg : RegOK ctx) (r : Rule) (hc : CachesOK ctx r)
-    (hctx : CtxVarFree (stripCtx ctx)) (hu : Tree.UniqueIds ctx.root) (hz : NoZeroWidth ctx.root)
-    (hfan : SmallFanout ctx.root) (hr : (stripR r).varDisjoint = true) (n : Tree)
-    (hn : n ∈ ctx.root.preorder) (f : Nat) (env : Env)
-    (hfresh : ∀ v ∈ (stripR r).vars, alookup v env.single = none ∧ alookup v env.multi = none)
-    (v : Option Tree × Env)
-    (h : matchRule (stripCtx ctx) f (stripR r) n env = .ok v) (f' : Nat) (hf : f ≤ f') :
-    matchRule ctx f r n env = .ok v ∧ sat ctx f' r n = v.1.isSome := by
-  refine ⟨matchRule_transparent ctx hreg f r hc n env v h, ?_⟩
-  rw [sat_strip]
-  obtain ⟨res, env'⟩ := v
-  exact (rule_ref_equiv_vars (stripCtx ctx) hctx hu hz hfan (stripR r) hr n hn f env hfresh
-    res env' h).1 f' hf
-
 /-! ## Navigation -/
 
 /-- `next_all()` is the list of later siblings -/
@@ -318,20 +287,19 @@ end Ex
 
 open Ex
 
-/-- **`ofRule` must return the sibling** (finding): `nthChild: {position: 1, ofRule: {has:
-{kind: 5}}}` on `a`.  The reference counts the siblings that satisfy `ofRule` — `a` is the first
-of them — but `find_index` collects what `ofRule` *returns*, and a bare relation returns the
-related node (`g`), so `a` is never found in that list.  (Replay on the binary: `[a(1), b]`,
-`rule: {kind: call_expression, nthChild: {position: 1, ofRule: {has: {kind: arguments}}}}`
-reports nothing; with `ofRule: {kind: call_expression, has: {kind: arguments}}` it reports
-`a(1)`.) -/
-theorem nthChild_ofRule_relation_counterexample :
+/-- **regression** (was the finding `nthChild_ofRule_relation_counterexample`):
+`nthChild: {position: 1, ofRule: {has: {kind: 5}}}` on `a`.  `find_index` now keeps the siblings
+that satisfy `ofRule` (not the nodes `ofRule` returns — a bare relation returns the related node
+`g`), so `a` is found at position 1, as the reference says.  (On the binary: `[a(1), b]`,
+`rule: {kind: call_expression, nthChild: {position: 1, ofRule: {has: {kind: arguments}}}}` now
+reports `a(1)`.)  The environment carries the `secondary` label of the final `ofRule` run on `a`. -/
+theorem nthChild_ofRule_relation_counts_sibling :
     matchRule ctx 12 (.nthChild 0 1 (some (.has (.kind 5) .neighbor none)) false) d1 Env.empty
-      = .ok (none, Env.empty) ∧
+      = .ok (some d1, Env.empty.addLabel secondaryLabel g) ∧
     sat ctx 12 (.nthChild 0 1 (some (.has (.kind 5) .neighbor none)) false) d1 = true := by
   refine ⟨?_, ?_⟩
   · simp [matchRule, ctx, parent_d1, filterMapRule, matchHas, findMapRule, finderStep, withLabel,
-      Tree.children, Tree.kind, Tree.info, Tree.named, indexById, Tree.id]
+      Tree.children, Tree.kind, Tree.info, Tree.named, indexById, Tree.id, isMatchedI32, inI32]
   · simp [sat, ctx, parent_d1, satBelow, Tree.children, Tree.kind, Tree.info, Tree.named,
       positionIn, indexById, Tree.id, isMatched]
 
@@ -387,9 +355,12 @@ theorem varDisjoint_example :
 theorem pA_d1 : matchPatternEnv .smart [97, 98] (matchFuel pA d1) pA d1 Env.empty
     = .ok (some ⟨[(['A'], d1)], [], []⟩) := by rfl
 
-/-- **constraints of global utilities are not in the reference**: `matches: u` on `a` -/
+/-- **constraints of global utilities are not in the reference** (why `CtxVarFree` still asks for
+constraint-free global utilities after the repair of `do_match`): `matches: u` on `a` — the rule
+`$A` of `u` matches, its constraint `A: kind 9` does not; the evaluator refuses (leaving no
+trace), `sat` looks at the rule of `u` only and accepts -/
 theorem global_constraints_counterexample :
-    matchRule ctxC 12 (.matches ['u']) d1 Env.empty = .ok (none, ⟨[(['A'], d1)], [], []⟩) ∧
+    matchRule ctxC 12 (.matches ['u']) d1 Env.empty = .ok (none, Env.empty) ∧
     sat ctxC 12 (.matches ['u']) d1 = true := by
   refine ⟨?_, ?_⟩
   · simp [matchRule, matchCore, constraintLoop, sortByName, insertByName, alookup, ctxC, kindsGate, pA_d1, Tree.kind,
@@ -422,13 +393,13 @@ theorem d1_inDoc : d1 ∈ ctx.root.preorder := by
   simp [ctx, Tree.preorder, Tree.preorderList]
 
 /-- a rule of the fragment using every family: kind, `has` down to a stop rule, negated
-`precedes`, `nthChild` with a self-returning `ofRule`, `inside` the root -/
+`precedes`, `nthChild` with an `ofRule`, `inside` the root -/
 def sample : Rule :=
   .all [.kind 1, .has (.kind 5) (.rule (.kind 5)) none, .not (.follows (.kind 2) .end_),
     .nthChild 0 1 (some (.kind 1)) false, .inside (.kind 0) .neighbor none] none
 
 example : sample.varFree = true := by
-  simp [sample, Rule.varFree, Rule.varFreeList, StopBy.varFree, Rule.selfForm]
+  simp [sample, Rule.varFree, Rule.varFreeList, StopBy.varFree]
 
 theorem prev_d1 : prevOf doc d1 = none ∧ prevAllOf doc d1 = [] := by
   constructor <;> rfl
@@ -447,7 +418,7 @@ example : sat ctx 20 sample d1 = true := by
   have h := sample_run
   have := rule_ref_equiv ctx ⟨fun id r h => by simp [ctx, alookup] at h,
       fun id core h => by simp [ctx, alookup] at h⟩ (by decide) (by decide) (by decide)
-    sample (by simp [sample, Rule.varFree, Rule.varFreeList, StopBy.varFree, Rule.selfForm])
+    sample (by simp [sample, Rule.varFree, Rule.varFreeList, StopBy.varFree])
     d1 d1_inDoc 20 Env.empty (some d1) _ h 20 (Nat.le_refl _)
   simpa using this
 
